@@ -77,3 +77,19 @@ func RunKnown(s *Spec, out io.Writer) int {
 	}
 	return n
 }
+
+// IsKnownSig reports whether a violation signature is that of a listed finding
+// of this property (used for data races, which are identified by their racing
+// pair of functions and cannot be avoided by a generator predicate).
+func IsKnownSig(s *Spec, sig string) bool {
+	kf, err := LoadKnown()
+	if err != nil {
+		return false
+	}
+	for _, f := range kf.Findings {
+		if f.Property == s.ID && f.Signature == sig {
+			return true
+		}
+	}
+	return false
+}
